@@ -707,6 +707,25 @@ func (a *Analyzer) step(fr *frame, ins ssa.Instruction, st *State) []*State {
 			})
 			return nil
 		}
+		if u, isU := v.(*Unknown); isU && u.Pooled {
+			// a value taken from a sync.Pool: the pool holds what its users put there (assumption: of the asserted type)
+			res := a.unknownOf(x.AssertedType, x.Name(), st)
+			if p, isP := res.(*Ptr); isP {
+				p.NilUnk = false
+				if p.Obj != nil {
+					if a.pooledObj == nil {
+						a.pooledObj = map[int]bool{}
+					}
+					a.pooledObj[p.Obj.ID] = true
+				}
+			}
+			if x.CommaOk {
+				st.Env[x] = &Tuple{Elems: []Term{res, True}}
+			} else {
+				st.Env[x] = res
+			}
+			return one
+		}
 		if x.CommaOk {
 			st.Env[x] = &Tuple{Elems: []Term{a.unknownOf(x.AssertedType, x.Name(), st), &Bool{Kind: BUnknown, ID: a.id()}}}
 		} else {
